@@ -170,6 +170,8 @@ def levels(kind, fallible):
 
 
 def instr_kinds(name):
+    if name == 'as_type':
+        return {(k, False) for k in KINDS}          # a cast in both directions, into_existing included (its own table row)
     return set(gen.kinds_of(name))
 
 
@@ -191,7 +193,7 @@ def winner(attrs, kind, fallible, cp):
     for (k, f) in levels(kind, fallible):
         for ded_pass in (True, False):
             for i, a in enumerate(attrs):
-                if a.name in gen.MEMBER_MAP_NAMES and (k, f) in instr_kinds(a.name):
+                if (a.name in gen.MEMBER_MAP_NAMES or a.name == 'as_type') and (k, f) in instr_kinds(a.name):
                     if (ded_pass and a.ded is not None and norm_ty(a.ded) == cp) or (not ded_pass and a.ded is None):
                         return i
     return None
